@@ -556,3 +556,512 @@ Theorem C04_tptr_next_some :
   tptr_next f i k bss t = HPtr b Z0 /\ In b (concat bss) /\ hblock h b = node_cells n nxt.
 Proof. exact tptr_next_some. Qed.
 Print Assumptions C04_tptr_next_some.
+
+(* --------------------------------------------------------------------------------------------------------------
+   THE TRANSLATED SOURCE of MemoryLeakDetector's allocMemory / deallocMemory / reallocMemory / invalidateMemory / deallocAllMemoryInCurrentAllocationStage and the functions they are made of (gen/Gen_HeapC04D.v, regenerated by tools/cxx2heap.py on every run) implements the model's d_store / d_dealloc / d_realloc_failed on the heap, classifies a release as the C06 model does, and leaves the table as it was on every path that returns NULL
+   -------------------------------------------------------------------------------------------------------------- *)
+From CppUVerif Require Import lib.CSem lib.CMem lib.CHeap gen.Gen_HeapC04 gen.Gen_HeapC04D C04_HeapRep C07_HeapRep C04_DetRep C04_DetTie.
+Local Open Scope Z_scope.
+Theorem C04_detectorD_layout_is_the_source :
+  off_MemoryLeakDetector_reporter_ = Z0 /\
+  off_MemoryLeakDetector_current_period_ = Zpos 1 /\
+  off_MemoryLeakDetector_outputBuffer_ = Zpos 2 /\
+  off_MemoryLeakDetector_memoryTable_ = Zpos 3 /\
+  cells_MemoryLeakDetectorTable = BinInt.Z.of_N hash_prime /\
+  off_MemoryLeakDetector_doAllocationTypeChecking_ = BinInt.Z.add (Zpos 3) (BinInt.Z.of_N hash_prime) /\
+  off_MemoryLeakDetector_allocationSequenceNumber_ = Zpos 77 /\
+  off_MemoryLeakDetector_current_allocation_stage_ = Zpos 78 /\
+  off_MemoryLeakDetector_mutex_ = Zpos 79 /\
+  cells_MemoryLeakDetector = Zpos 80 /\
+  off_MemoryLeakDetectorNode_size_ = Z0 /\
+  off_MemoryLeakDetectorNode_number_ = Zpos 1 /\
+  off_MemoryLeakDetectorNode_memory_ = Zpos 2 /\
+  off_MemoryLeakDetectorNode_file_ = Zpos 3 /\
+  off_MemoryLeakDetectorNode_line_ = Zpos 4 /\
+  off_MemoryLeakDetectorNode_allocator_ = Zpos 5 /\
+  off_MemoryLeakDetectorNode_period_ = Zpos 6 /\
+  off_MemoryLeakDetectorNode_allocation_stage_ = Zpos 7 /\
+  off_MemoryLeakDetectorNode_next_ = Zpos 8 /\
+  cells_MemoryLeakDetectorNode = Zpos 9 /\ sizeof_MemoryLeakDetectorNode = Zpos 64.
+Proof. exact detectorD_layout_is_the_source. Qed.
+Print Assumptions C04_detectorD_layout_is_the_source.
+
+Theorem C04_src_node_init_spec :
+  forall (fuel : nat) (h : heap) (evs : list dev) (al nf : list Z) (il : list hptr)
+  (rl gs : list Z) (b : nat) (memory number size allocator period stage file line : Z),
+  b < length h ->
+  length (hblock h b) = 9 ->
+  src_node_init fuel h evs al nf il rl gs (HPtr b Z0) memory number size allocator period stage file line =
+  FOk
+  (tt,
+  upd h b
+  [VInt size; VInt number; VInt memory; VInt file; VInt line; VInt allocator; VInt period;
+  VInt stage; nth 8 (hblock h b) (VInt Z0)], evs, al, nf, il, rl, gs).
+Proof. exact src_node_init_spec. Qed.
+Print Assumptions C04_src_node_init_spec.
+
+Theorem C04_src_det_sizeOfMemoryWithCorruptionInfo_spec :
+  forall (fuel : nat) (h : heap) (evs : list dev) (al nf : list Z) (il : list hptr)
+  (rl gs : list Z) (this : hptr) (size : Z),
+  BinInt.Z.le Z0 size /\ BinInt.Z.le size max_user_size ->
+  src_det_sizeOfMemoryWithCorruptionInfo fuel h evs al nf il rl gs this size =
+  FOk (size_with_guard size, h, evs, al, nf, il, rl, gs).
+Proof. exact src_det_sizeOfMemoryWithCorruptionInfo_spec. Qed.
+Print Assumptions C04_src_det_sizeOfMemoryWithCorruptionInfo_spec.
+
+Theorem C04_src_det_sizeLeavesRoomForAccountingInformation_spec :
+  forall (fuel : nat) (h : heap) (evs : list dev) (al nf : list Z) (il : list hptr) (rl gs : list Z) (size : Z),
+  src_det_sizeLeavesRoomForAccountingInformation fuel h evs al nf il rl gs size =
+  FOk (b2z (BinInt.Z.leb size max_user_size), h, evs, al, nf, il, rl, gs).
+Proof. exact src_det_sizeLeavesRoomForAccountingInformation_spec. Qed.
+Print Assumptions C04_src_det_sizeLeavesRoomForAccountingInformation_spec.
+
+Theorem C04_d_mismatch_iff :
+  forall (equal_type : Z -> Z -> Z) (tc : bool) (a f : Z),
+  d_matching equal_type tc a f = false <-> a <> f /\ tc = true /\ z2b (equal_type f a) = false.
+Proof. exact d_mismatch_iff. Qed.
+Print Assumptions C04_d_mismatch_iff.
+
+Theorem C04_src_det_checkForCorruption_spec :
+  forall (actual : Z -> Z) (equal_type : Z -> Z -> Z) (fuel : nat) (h : heap) (evs : list dev)
+  (al nf : list Z) (il : list hptr) (rl gs : list Z) (dt : nat) (bss : list (list nat))
+  (d : det) (tc : bool) (b : nat) (n : node) (nxt : hptr) (file line allocator sep g : Z)
+  (gs' : list Z),
+  detector_at h dt bss d tc ->
+  hblock h b = node_cells n nxt ->
+  (d_matching equal_type tc (actual (BinInt.Z.of_N (n_kind n))) (actual allocator) = true -> gs = g :: gs') ->
+  src_det_checkForCorruption actual equal_type fuel h evs al nf il rl gs (HPtr dt Z0)
+  (HPtr b Z0) file line allocator sep =
+  FOk
+  (tt, h, evs ++ corr_events actual equal_type tc (HPtr b Z0) n allocator sep g, al, nf, il, rl,
+  corr_guards actual equal_type tc n allocator gs).
+Proof. exact src_det_checkForCorruption_spec. Qed.
+Print Assumptions C04_src_det_checkForCorruption_spec.
+
+Theorem C04_corr_events_cat :
+  forall (actual : Z -> Z) (equal_type : Z -> Z -> Z) (tc : bool) (p : hptr) (n : node) (allocator sep g : Z),
+  corr_events actual equal_type tc p n allocator sep g =
+  match d_check actual equal_type tc n allocator g with
+  | C06_Model.CMismatch => [DReport (Zpos 2) p]
+  | C06_Model.CCorrupt => [DGuardCheck (guard_addr n) g; DReport (Zpos 3) p]
+  | _ => DGuardCheck (guard_addr n) g :: (if z2b sep then [DNodeFree allocator p] else [])
+  end.
+Proof. exact corr_events_cat. Qed.
+Print Assumptions C04_corr_events_cat.
+
+Theorem C04_d_check_is_C06 :
+  forall (actual : Z -> Z) (equal_type : Z -> Z -> Z) (ds : list C06_Model.adesc) (st : C06_Model.dstate)
+  (n : node) (al : nat) (g : Z),
+  (forall x y : nat, z2b (equal_type (BinInt.Z.of_nat x) (BinInt.Z.of_nat y)) = C06_Model.equal_type ds x y) ->
+  (forall x : nat, actual (BinInt.Z.of_nat x) = BinInt.Z.of_nat (C06_Model.actual_of ds x)) ->
+  z2b g = C06_Model.valid_guard (C06_Model.s_mem st) (n_addr n + n_size n) ->
+  d_check actual equal_type (C06_Model.s_tc st) n (BinInt.Z.of_nat al) g = C06_Model.check ds st n al.
+Proof. exact d_check_is_C06. Qed.
+Print Assumptions C04_d_check_is_C06.
+
+Theorem C04_src_det_allocMemory_oversize :
+  forall (fuel : nat) (h : heap) (evs : list dev) (al nf : list Z) (il : list hptr)
+  (rl gs : list Z) (this : hptr) (allocator size file line sep : Z),
+  BinInt.Z.lt max_user_size size ->
+  src_det_allocMemory fuel h evs al nf il rl gs this allocator size file line sep =
+  FOk (Z0, h, evs, al, nf, il, rl, gs).
+Proof. exact src_det_allocMemory_oversize. Qed.
+Print Assumptions C04_src_det_allocMemory_oversize.
+
+Theorem C04_src_det_allocMemory_refused :
+  forall (fuel : nat) (h : heap) (evs : list dev) (al nf : list Z) (il : list hptr)
+  (rl gs : list Z) (this : hptr) (allocator size file line sep : Z),
+  BinInt.Z.le Z0 size /\ BinInt.Z.le size max_user_size ->
+  src_det_allocMemory fuel h evs (Z0 :: al) nf il rl gs this allocator size file line sep =
+  FOk (Z0, h, evs ++ [DAllocCall allocator (alloc_request sep size) Z0], al, nf, il, rl, gs).
+Proof. exact src_det_allocMemory_refused. Qed.
+Print Assumptions C04_src_det_allocMemory_refused.
+
+Theorem C04_src_det_allocMemory_node_refused :
+  forall (fuel : nat) (h : heap) (evs : list dev) (o : Z) (al : list Z) (r : Z) (nf : list Z)
+  (il : list hptr) (rl gs : list Z) (this : hptr) (allocator size file line sep : Z),
+  BinInt.Z.le Z0 size /\ BinInt.Z.le size max_user_size ->
+  o <> Z0 ->
+  z2b sep = true ->
+  r <> Z0 ->
+  src_det_allocMemory fuel h evs (o :: al) (r :: nf) il rl gs this allocator size file line sep =
+  FOk
+  (Z0, h,
+  evs ++ [DAllocCall allocator (size_with_guard size) o; DNodeRefused allocator; DFreeCall allocator o size],
+  al, nf, il, rl, gs).
+Proof. exact src_det_allocMemory_node_refused. Qed.
+Print Assumptions C04_src_det_allocMemory_node_refused.
+
+Theorem C04_src_det_allocMemory_separate :
+  forall (fuel : nat) (h : heap) (evs : list dev) (al nf : list Z) (il : list hptr)
+  (rl gs : list Z) (dt : nat) (bss : list (list nat)) (d : det) (tc : bool) (a size kind file line : N)
+  (sep : Z),
+  detector_at h dt bss d tc ->
+  (size <= 2 ^ 64 - 76)%N ->
+  (a < 2 ^ 64)%N ->
+  a <> 0%N ->
+  (line < 2 ^ 64)%N ->
+  (d_seq d + 1 < 2 ^ 32)%N ->
+  z2b sep = true ->
+  exists (h' : heap) (hd : hptr),
+  src_det_allocMemory fuel h evs (BinInt.Z.of_N a :: al) (Z0 :: nf) il rl gs (HPtr dt Z0)
+  (BinInt.Z.of_N kind) (BinInt.Z.of_N size) (BinInt.Z.of_N file) (BinInt.Z.of_N line) sep =
+  FOk
+  (BinInt.Z.of_N a, h',
+  evs ++
+  [DAllocCall (BinInt.Z.of_N kind) (size_with_guard (BinInt.Z.of_N size)) (BinInt.Z.of_N a);
+  DNodeAlloc (BinInt.Z.of_N kind) (HPtr (length h) Z0);
+  DGuardWrite (guard_addr (new_node d a size kind file line))], al, nf, il, rl, gs) /\
+  detector_at h' dt (tw_set (hashN a) (length h :: nth (hashN a) bss []) bss)
+  (d_store d a size kind file line) tc /\
+  length h' = S (length h) /\
+  hblock h' (length h) = node_cells (new_node d a size kind file line) hd /\
+  (forall b' : nat, b' < length h -> b' <> dt -> hblock h' b' = hblock h b').
+Proof. exact src_det_allocMemory_separate. Qed.
+Print Assumptions C04_src_det_allocMemory_separate.
+
+Theorem C04_src_det_allocMemory_inline :
+  forall (fuel : nat) (h : heap) (evs : list dev) (al nf : list Z) (il : list hptr)
+  (rl gs : list Z) (dt : nat) (bss : list (list nat)) (d : det) (tc : bool) (nb : nat)
+  (a size kind file line : N) (sep : Z),
+  detector_at h dt bss d tc ->
+  (size <= 2 ^ 64 - 76)%N ->
+  (a < 2 ^ 64)%N ->
+  a <> 0%N ->
+  (line < 2 ^ 64)%N ->
+  (d_seq d + 1 < 2 ^ 32)%N ->
+  z2b sep = false ->
+  nb < length h ->
+  length (hblock h nb) = 9 ->
+  nb <> dt ->
+  ~ In nb (concat bss) ->
+  exists (h' : heap) (hd : hptr),
+  src_det_allocMemory fuel h evs (BinInt.Z.of_N a :: al) nf (HPtr nb Z0 :: il) rl gs
+  (HPtr dt Z0) (BinInt.Z.of_N kind) (BinInt.Z.of_N size) (BinInt.Z.of_N file) (BinInt.Z.of_N line) sep =
+  FOk
+  (BinInt.Z.of_N a, h',
+  evs ++
+  [DAllocCall (BinInt.Z.of_N kind) (BinInt.Z.add (size_with_guard (BinInt.Z.of_N size)) (Zpos 64))
+  (BinInt.Z.of_N a); DInline (BinInt.Z.of_N a) (BinInt.Z.of_N size) (HPtr nb Z0);
+  DGuardWrite (guard_addr (new_node d a size kind file line))], al, nf, il, rl, gs) /\
+  detector_at h' dt (tw_set (hashN a) (nb :: nth (hashN a) bss []) bss) (d_store d a size kind file line) tc /\
+  length h' = length h /\
+  hblock h' nb = node_cells (new_node d a size kind file line) hd /\
+  (forall b' : nat, b' <> nb -> b' <> dt -> hblock h' b' = hblock h b').
+Proof. exact src_det_allocMemory_inline. Qed.
+Print Assumptions C04_src_det_allocMemory_inline.
+
+Theorem C04_src_det_deallocMemory_null :
+  forall (actual : Z -> Z) (equal_type : Z -> Z -> Z) (destroyed : Z -> Z) (fuel : nat)
+  (h : heap) (evs : list dev) (al nf : list Z) (il : list hptr) (rl gs : list Z) (this : hptr)
+  (allocator file line sep : Z),
+  src_det_deallocMemory actual equal_type destroyed fuel h evs al nf il rl gs this allocator Z0 file line sep =
+  FOk (tt, h, evs, al, nf, il, rl, gs).
+Proof. exact src_det_deallocMemory_null. Qed.
+Print Assumptions C04_src_det_deallocMemory_null.
+
+Theorem C04_src_det_deallocMemory_spec :
+  forall (actual : Z -> Z) (equal_type : Z -> Z -> Z) (destroyed : Z -> Z) (fuel : nat)
+  (h : heap) (evs : list dev) (al nf : list Z) (il : list hptr) (rl gs : list Z) (dt : nat)
+  (bss : list (list nat)) (d : det) (tc : bool) (a : N) (allocator file line sep g : Z)
+  (gs' : list Z),
+  detector_at h dt bss d tc ->
+  (a < 2 ^ 64)%N ->
+  a <> 0%N ->
+  length (nth (hashN a) (d_tbl d) []) < fuel ->
+  (forall n : node,
+  fst (t_remove a (d_tbl d)) = Some n ->
+  z2b (destroyed allocator) = false ->
+  d_matching equal_type tc (actual (BinInt.Z.of_N (n_kind n))) (actual allocator) = true -> gs = g :: gs') ->
+  exists (h' : heap) (bss' : list (list nat)),
+  src_det_deallocMemory actual equal_type destroyed fuel h evs al nf il rl gs (HPtr dt Z0) allocator
+  (BinInt.Z.of_N a) file line sep =
+  FOk
+  (tt, h',
+  evs ++
+  dealloc_events actual equal_type destroyed tc
+  (ptr_of a (nth (hashN a) bss []) (nth (hashN a) (d_tbl d) [])) (fst (t_remove a (d_tbl d))) allocator
+  (BinInt.Z.of_N a) sep g, al, nf, il, rl,
+  dealloc_guards actual equal_type destroyed tc (fst (t_remove a (d_tbl d))) allocator gs) /\
+  detector_at h' dt bss' (fst (d_dealloc d a)) tc /\
+  length h' = length h /\
+  (forall b' : nat, b' <> dt -> ~ In b' (concat bss) -> hblock h' b' = hblock h b') /\
+  match fst (t_remove a (d_tbl d)) with
+  | Some n =>
+  exists (b : nat) (nxt : hptr),
+  ptr_of a (nth (hashN a) bss []) (nth (hashN a) (d_tbl d) []) = HPtr b Z0 /\
+  hblock h' b = node_cells n nxt /\
+  hblock h b = node_cells n nxt /\
+  In b (concat bss) /\
+  ~ In b (concat bss') /\
+  (forall x : nat, In x (concat bss) -> x <> b -> In x (concat bss')) /\
+  (forall (x : nat) (n0 : node) (nx : hptr),
+  In x (concat bss') ->
+  hblock h x = node_cells n0 nx -> exists nx' : hptr, hblock h' x = node_cells n0 nx')
+  | None => ptr_of a (nth (hashN a) bss []) (nth (hashN a) (d_tbl d) []) = HNull
+  end.
+Proof. exact src_det_deallocMemory_spec. Qed.
+Print Assumptions C04_src_det_deallocMemory_spec.
+
+Theorem C04_dealloc_reports :
+  forall (actual : Z -> Z) (equal_type : Z -> Z -> Z) (destroyed : Z -> Z) (tc : bool)
+  (p : hptr) (r : option node) (allocator a sep g : Z),
+  filter is_report (dealloc_events actual equal_type destroyed tc p r allocator a sep g) =
+  match dealloc_cat actual equal_type destroyed tc r allocator g with
+  | C06_Model.CNone => []
+  | C06_Model.CNonAlloc => [DReport (Zpos 1) HNull]
+  | C06_Model.CMismatch => [DReport (Zpos 2) p]
+  | C06_Model.CCorrupt => [DReport (Zpos 3) p]
+  end.
+Proof. exact dealloc_reports. Qed.
+Print Assumptions C04_dealloc_reports.
+
+Theorem C04_dealloc_at_most_one_report :
+  forall (actual : Z -> Z) (equal_type : Z -> Z -> Z) (destroyed : Z -> Z) (tc : bool)
+  (p : hptr) (r : option node) (allocator a sep g : Z),
+  length (filter is_report (dealloc_events actual equal_type destroyed tc p r allocator a sep g)) <= 1.
+Proof. exact dealloc_at_most_one_report. Qed.
+Print Assumptions C04_dealloc_at_most_one_report.
+
+Theorem C04_dealloc_frees :
+  forall (actual : Z -> Z) (equal_type : Z -> Z -> Z) (destroyed : Z -> Z) (tc : bool)
+  (p : hptr) (r : option node) (allocator a sep g : Z),
+  filter (fun e : dev => match e with
+  | DFreeCall _ _ _ => true
+  | _ => false
+  end) (dealloc_events actual equal_type destroyed tc p r allocator a sep g) =
+  match r with
+  | Some n => if z2b (destroyed allocator) then [] else [DFreeCall allocator a (BinInt.Z.of_N (n_size n))]
+  | None => []
+  end.
+Proof. exact dealloc_frees. Qed.
+Print Assumptions C04_dealloc_frees.
+
+Theorem C04_src_det_reallocMemory_oversize :
+  forall (actual : Z -> Z) (equal_type : Z -> Z -> Z) (fuel : nat) (h : heap) (evs : list dev)
+  (al nf : list Z) (il : list hptr) (rl gs : list Z) (this : hptr) (allocator memory size file line sep : Z),
+  BinInt.Z.lt max_user_size size ->
+  src_det_reallocMemory actual equal_type fuel h evs al nf il rl gs this allocator memory size file line sep =
+  FOk (Z0, h, evs, al, nf, il, rl, gs).
+Proof. exact src_det_reallocMemory_oversize. Qed.
+Print Assumptions C04_src_det_reallocMemory_oversize.
+
+Theorem C04_src_det_reallocMemory_unknown :
+  forall (actual : Z -> Z) (equal_type : Z -> Z -> Z) (fuel : nat) (h : heap) (evs : list dev)
+  (al nf : list Z) (il : list hptr) (rl gs : list Z) (dt : nat) (bss : list (list nat))
+  (d : det) (tc : bool) (a : N) (allocator size file line sep : Z),
+  detector_at h dt bss d tc ->
+  (a < 2 ^ 64)%N ->
+  a <> 0%N ->
+  length (nth (hashN a) (d_tbl d) []) < fuel ->
+  BinInt.Z.le size max_user_size ->
+  fst (t_remove a (d_tbl d)) = None ->
+  exists (h' : heap) (bss' : list (list nat)),
+  src_det_reallocMemory actual equal_type fuel h evs al nf il rl gs (HPtr dt Z0) allocator
+  (BinInt.Z.of_N a) size file line sep = FOk (Z0, h', evs ++ [DReport (Zpos 1) HNull], al, nf, il, rl, gs) /\
+  detector_at h' dt bss' d tc /\
+  fst (d_realloc_failed d a) = d /\
+  snd (d_realloc_failed d a) = true /\
+  length h' = length h /\ (forall b' : nat, b' <> dt -> ~ In b' (concat bss) -> hblock h' b' = hblock h b').
+Proof. exact src_det_reallocMemory_unknown. Qed.
+Print Assumptions C04_src_det_reallocMemory_unknown.
+
+Theorem C04_src_det_reallocMemory_node_refused :
+  forall (actual : Z -> Z) (equal_type : Z -> Z -> Z) (fuel : nat) (h : heap) (evs : list dev)
+  (al : list Z) (r : Z) (nf : list Z) (il : list hptr) (rl gs : list Z) (dt : nat)
+  (bss : list (list nat)) (d : det) (tc : bool) (a : N) (n : node) (allocator size file line sep g : Z)
+  (gs' : list Z),
+  detector_at h dt bss d tc ->
+  (a < 2 ^ 64)%N ->
+  a <> 0%N ->
+  length (nth (hashN a) (d_tbl d) []) < fuel ->
+  BinInt.Z.le size max_user_size ->
+  fst (t_remove a (d_tbl d)) = Some n ->
+  (d_matching equal_type tc (actual (BinInt.Z.of_N (n_kind n))) (actual allocator) = true -> gs = g :: gs') ->
+  z2b sep = true ->
+  r <> Z0 ->
+  exists (h3 : heap) (bss3 : list (list nat)),
+  src_det_reallocMemory actual equal_type fuel h evs al (r :: nf) il rl gs (HPtr dt Z0) allocator
+  (BinInt.Z.of_N a) size file line sep =
+  FOk
+  (Z0, h3,
+  evs ++
+  corr_events actual equal_type tc (ptr_of a (nth (hashN a) bss []) (nth (hashN a) (d_tbl d) [])) n
+  allocator Z0 g ++ [DNodeRefused allocator], al, nf, il, rl,
+  corr_guards actual equal_type tc n allocator gs) /\
+  detector_at h3 dt bss3 (fst (d_realloc_failed d a)) tc /\
+  snd (d_realloc_failed d a) = false /\
+  length h3 = length h /\ (forall b' : nat, b' <> dt -> ~ In b' (concat bss) -> hblock h3 b' = hblock h b').
+Proof. exact src_det_reallocMemory_node_refused. Qed.
+Print Assumptions C04_src_det_reallocMemory_node_refused.
+
+Theorem C04_src_det_reallocMemory_failed_separate :
+  forall (actual : Z -> Z) (equal_type : Z -> Z -> Z) (fuel : nat) (h : heap) (evs : list dev)
+  (al nf : list Z) (il : list hptr) (rl gs : list Z) (dt : nat) (bss : list (list nat))
+  (d : det) (tc : bool) (a : N) (n : node) (allocator size file line sep g : Z) (gs' : list Z),
+  detector_at h dt bss d tc ->
+  (a < 2 ^ 64)%N ->
+  a <> 0%N ->
+  length (nth (hashN a) (d_tbl d) []) < fuel ->
+  BinInt.Z.le Z0 size /\ BinInt.Z.le size max_user_size ->
+  fst (t_remove a (d_tbl d)) = Some n ->
+  (d_matching equal_type tc (actual (BinInt.Z.of_N (n_kind n))) (actual allocator) = true -> gs = g :: gs') ->
+  z2b sep = true ->
+  exists (h3 : heap) (bss3 : list (list nat)),
+  src_det_reallocMemory actual equal_type fuel h evs al (Z0 :: nf) il (Z0 :: rl) gs
+  (HPtr dt Z0) allocator (BinInt.Z.of_N a) size file line sep =
+  FOk
+  (Z0, h3,
+  evs ++
+  corr_events actual equal_type tc (ptr_of a (nth (hashN a) bss []) (nth (hashN a) (d_tbl d) [])) n
+  allocator Z0 g ++
+  [DNodeAlloc allocator (HPtr (length h) Z0); DRealloc (BinInt.Z.of_N a) (size_with_guard size) Z0;
+  DNodeFree allocator (HPtr (length h) Z0)], al, nf, il, rl,
+  corr_guards actual equal_type tc n allocator gs) /\
+  detector_at h3 dt bss3 (fst (d_realloc_failed d a)) tc /\
+  snd (d_realloc_failed d a) = false /\
+  length h3 = S (length h) /\
+  (forall b' : nat, b' < length h -> b' <> dt -> ~ In b' (concat bss) -> hblock h3 b' = hblock h b').
+Proof. exact src_det_reallocMemory_failed_separate. Qed.
+Print Assumptions C04_src_det_reallocMemory_failed_separate.
+
+Theorem C04_src_det_reallocMemory_failed_inline :
+  forall (actual : Z -> Z) (equal_type : Z -> Z -> Z) (fuel : nat) (h : heap) (evs : list dev)
+  (al nf : list Z) (il : list hptr) (rl gs : list Z) (dt : nat) (bss : list (list nat))
+  (d : det) (tc : bool) (a : N) (n : node) (allocator size file line sep g : Z) (gs' : list Z),
+  detector_at h dt bss d tc ->
+  (a < 2 ^ 64)%N ->
+  a <> 0%N ->
+  length (nth (hashN a) (d_tbl d) []) < fuel ->
+  BinInt.Z.le Z0 size /\ BinInt.Z.le size max_user_size ->
+  fst (t_remove a (d_tbl d)) = Some n ->
+  (d_matching equal_type tc (actual (BinInt.Z.of_N (n_kind n))) (actual allocator) = true -> gs = g :: gs') ->
+  z2b sep = false ->
+  exists (h3 : heap) (bss3 : list (list nat)),
+  src_det_reallocMemory actual equal_type fuel h evs al nf il (Z0 :: rl) gs (HPtr dt Z0) allocator
+  (BinInt.Z.of_N a) size file line sep =
+  FOk
+  (Z0, h3,
+  evs ++
+  corr_events actual equal_type tc (ptr_of a (nth (hashN a) bss []) (nth (hashN a) (d_tbl d) [])) n
+  allocator Z0 g ++ [DRealloc (BinInt.Z.of_N a) (BinInt.Z.add (size_with_guard size) (Zpos 64)) Z0], al,
+  nf, il, rl, corr_guards actual equal_type tc n allocator gs) /\
+  detector_at h3 dt bss3 (fst (d_realloc_failed d a)) tc /\
+  snd (d_realloc_failed d a) = false /\
+  length h3 = length h /\ (forall b' : nat, b' <> dt -> ~ In b' (concat bss) -> hblock h3 b' = hblock h b').
+Proof. exact src_det_reallocMemory_failed_inline. Qed.
+Print Assumptions C04_src_det_reallocMemory_failed_inline.
+
+Theorem C04_src_det_reallocMemory_success_separate :
+  forall (actual : Z -> Z) (equal_type : Z -> Z -> Z) (fuel : nat) (h : heap) (evs : list dev)
+  (al nf : list Z) (il : list hptr) (rl gs : list Z) (dt : nat) (bss : list (list nat))
+  (d : det) (tc : bool) (a : N) (n : node) (na size kind file line : N) (sep g : Z)
+  (gs' : list Z),
+  detector_at h dt bss d tc ->
+  (a < 2 ^ 64)%N ->
+  a <> 0%N ->
+  length (nth (hashN a) (d_tbl d) []) < fuel ->
+  (size <= 2 ^ 64 - 76)%N ->
+  fst (t_remove a (d_tbl d)) = Some n ->
+  (d_matching equal_type tc (actual (BinInt.Z.of_N (n_kind n))) (actual (BinInt.Z.of_N kind)) = true ->
+  gs = g :: gs') ->
+  z2b sep = true ->
+  (na < 2 ^ 64)%N ->
+  na <> 0%N ->
+  (line < 2 ^ 64)%N ->
+  (d_seq d + 1 < 2 ^ 32)%N ->
+  exists (h3 : heap) (bss3 : list (list nat)),
+  src_det_reallocMemory actual equal_type fuel h evs al (Z0 :: nf) il (BinInt.Z.of_N na :: rl) gs
+  (HPtr dt Z0) (BinInt.Z.of_N kind) (BinInt.Z.of_N a) (BinInt.Z.of_N size) (BinInt.Z.of_N file)
+  (BinInt.Z.of_N line) sep =
+  FOk
+  (BinInt.Z.of_N na, h3,
+  evs ++
+  corr_events actual equal_type tc (ptr_of a (nth (hashN a) bss []) (nth (hashN a) (d_tbl d) [])) n
+  (BinInt.Z.of_N kind) Z0 g ++
+  [DNodeAlloc (BinInt.Z.of_N kind) (HPtr (length h) Z0);
+  DRealloc (BinInt.Z.of_N a) (size_with_guard (BinInt.Z.of_N size)) (BinInt.Z.of_N na);
+  DGuardWrite (guard_addr (new_node d na size kind file line));
+  DNodeFree (BinInt.Z.of_N kind) (ptr_of a (nth (hashN a) bss []) (nth (hashN a) (d_tbl d) []))], al, nf,
+  il, rl, corr_guards actual equal_type tc n (BinInt.Z.of_N kind) gs) /\
+  detector_at h3 dt bss3 (d_store (fst (d_dealloc d a)) na size kind file line) tc /\
+  snd (d_dealloc d a) = false /\
+  length h3 = S (length h) /\
+  (forall b' : nat, b' < length h -> b' <> dt -> ~ In b' (concat bss) -> hblock h3 b' = hblock h b').
+Proof. exact src_det_reallocMemory_success_separate. Qed.
+Print Assumptions C04_src_det_reallocMemory_success_separate.
+
+Theorem C04_src_det_reallocMemory_success_inline :
+  forall (actual : Z -> Z) (equal_type : Z -> Z -> Z) (fuel : nat) (h : heap) (evs : list dev)
+  (al nf : list Z) (il : list hptr) (rl gs : list Z) (dt : nat) (bss : list (list nat))
+  (d : det) (tc : bool) (nb : nat) (a : N) (n : node) (na size kind file line : N)
+  (sep g : Z) (gs' : list Z),
+  detector_at h dt bss d tc ->
+  (a < 2 ^ 64)%N ->
+  a <> 0%N ->
+  length (nth (hashN a) (d_tbl d) []) < fuel ->
+  (size <= 2 ^ 64 - 76)%N ->
+  fst (t_remove a (d_tbl d)) = Some n ->
+  (d_matching equal_type tc (actual (BinInt.Z.of_N (n_kind n))) (actual (BinInt.Z.of_N kind)) = true ->
+  gs = g :: gs') ->
+  z2b sep = false ->
+  (na < 2 ^ 64)%N ->
+  na <> 0%N ->
+  (line < 2 ^ 64)%N ->
+  (d_seq d + 1 < 2 ^ 32)%N ->
+  nb < length h /\ length (hblock h nb) = 9 /\ nb <> dt /\ ~ In nb (concat bss) \/
+  HPtr nb Z0 = ptr_of a (nth (hashN a) bss []) (nth (hashN a) (d_tbl d) []) ->
+  exists (h3 : heap) (bss3 : list (list nat)),
+  src_det_reallocMemory actual equal_type fuel h evs al nf (HPtr nb Z0 :: il) (BinInt.Z.of_N na :: rl) gs
+  (HPtr dt Z0) (BinInt.Z.of_N kind) (BinInt.Z.of_N a) (BinInt.Z.of_N size) (BinInt.Z.of_N file)
+  (BinInt.Z.of_N line) sep =
+  FOk
+  (BinInt.Z.of_N na, h3,
+  evs ++
+  corr_events actual equal_type tc (ptr_of a (nth (hashN a) bss []) (nth (hashN a) (d_tbl d) [])) n
+  (BinInt.Z.of_N kind) Z0 g ++
+  [DRealloc (BinInt.Z.of_N a) (BinInt.Z.add (size_with_guard (BinInt.Z.of_N size)) (Zpos 64))
+  (BinInt.Z.of_N na); DInline (BinInt.Z.of_N na) (BinInt.Z.of_N size) (HPtr nb Z0);
+  DGuardWrite (guard_addr (new_node d na size kind file line))], al, nf, il, rl,
+  corr_guards actual equal_type tc n (BinInt.Z.of_N kind) gs) /\
+  detector_at h3 dt bss3 (d_store (fst (d_dealloc d a)) na size kind file line) tc /\
+  snd (d_dealloc d a) = false /\
+  length h3 = length h /\
+  (forall b' : nat, b' <> nb -> b' <> dt -> ~ In b' (concat bss) -> hblock h3 b' = hblock h b').
+Proof. exact src_det_reallocMemory_success_inline. Qed.
+Print Assumptions C04_src_det_reallocMemory_success_inline.
+
+Theorem C04_src_det_invalidateMemory_spec :
+  forall (fuel : nat) (h : heap) (evs : list dev) (al nf : list Z) (il : list hptr)
+  (rl gs : list Z) (dt : nat) (bss : list (list nat)) (d : det) (tc : bool) (a : N),
+  detector_at h dt bss d tc ->
+  (a < 2 ^ 64)%N ->
+  length (nth (hashN a) (d_tbl d) []) < fuel ->
+  src_det_invalidateMemory fuel h evs al nf il rl gs (HPtr dt Z0) (BinInt.Z.of_N a) =
+  FOk
+  (tt, h,
+  evs ++
+  match t_retrieve a (d_tbl d) with
+  | Some n => [DPoison (BinInt.Z.of_N a) (BinInt.Z.of_N (n_size n))]
+  | None => []
+  end, al, nf, il, rl, gs).
+Proof. exact src_det_invalidateMemory_spec. Qed.
+Print Assumptions C04_src_det_invalidateMemory_spec.
+
+Theorem C04_src_det_deallocAllMemoryInCurrentAllocationStage_spec :
+  forall (actual : Z -> Z) (equal_type : Z -> Z -> Z) (destroyed : Z -> Z) (fuel : nat)
+  (h : heap) (evs : list dev) (al nf : list Z) (il : list hptr) (rl gs : list Z) (dt : nat)
+  (bss : list (list nat)) (d : det) (tc : bool),
+  detector_at h dt bss d tc ->
+  Inv (d_tbl d) ->
+  no_null_key (d_tbl d) ->
+  t_count (d_tbl d) + 80 < fuel ->
+  t_count (d_tbl d) <= length gs ->
+  exists (h' : heap) (bss' : list (list nat)) (evs' : list dev) (gs' : list Z) (st' : det),
+  src_det_deallocAllMemoryInCurrentAllocationStage actual equal_type destroyed fuel h evs al nf il rl gs
+  (HPtr dt Z0) = FOk (tt, h', evs ++ evs', al, nf, il, rl, gs') /\
+  d_stage_free d = Some (st', 0%N) /\
+  detector_at h' dt bss' st' tc /\
+  Inv (d_tbl st') /\ no_null_key (d_tbl st') /\ (forall e : dev, In e evs' -> e <> DReport (Zpos 1) HNull).
+Proof. exact src_det_deallocAllMemoryInCurrentAllocationStage_spec. Qed.
+Print Assumptions C04_src_det_deallocAllMemoryInCurrentAllocationStage_spec.
